@@ -383,7 +383,9 @@ func (r *Reader) MarkdownWithOptions(opts ExtractOptions) (string, error) {
 				}
 				result.WriteString(strings.Repeat("#", level))
 				result.WriteString(" ")
-				result.WriteString(para.Text)
+				// an ATX heading is one line: a line break inside the heading
+				// would end it and turn the rest into a paragraph
+				result.WriteString(strings.Join(strings.Fields(para.Text), " "))
 				result.WriteString("\n\n")
 				inList = false
 			} else if para.IsListItem && para.NumID != "" && para.NumID != "0" {
@@ -531,7 +533,9 @@ func (r *Reader) MarkdownWithRAGOptions(extractOpts ExtractOptions, mdOpts rag.M
 				}
 				result.WriteString(strings.Repeat("#", level))
 				result.WriteString(" ")
-				result.WriteString(para.Text)
+				// an ATX heading is one line: a line break inside the heading
+				// would end it and turn the rest into a paragraph
+				result.WriteString(strings.Join(strings.Fields(para.Text), " "))
 				result.WriteString("\n\n")
 				inList = false
 			} else if para.IsListItem && para.NumID != "" && para.NumID != "0" {
